@@ -40,6 +40,17 @@ def ws_excess(value: str) -> int:
     return 0
 
 
+RST_SEPARATORS = '\x1c\x1d\x1e\x85\u2028\u2029'     # docutils splits on these (str.splitlines); \x0b and \x0c become spaces
+
+
+def separators_before(case: Dict[str, Any]) -> int:
+    """how many characters docutils takes for line boundaries (but Python does not) precede the problem block"""
+    if case.get('pidx', -1) < 0:
+        return 0
+    head = case['value'].split('\n')[:case['pidx'] + case['first_rel']]
+    return sum(l.count(ch) for l in head for ch in RST_SEPARATORS)
+
+
 def aligned_lines(value: str, k: int) -> Optional[List[str]]:
     """What cleandoc makes of the value lines k, k+1, ... (expandtabs, margin removed / first line lstripped)."""
     lines = value.expandtabs().split('\n')
@@ -84,6 +95,8 @@ def blocks_for(fmt: str, problem: str, place: str, variant: int, name: str, raw:
     if problem == 'xref':
         msg = 'Cannot find link target for "%s"' % name
         if place == 'para':
+            blk, first, prob = ['See %s there.' % link], 0, 0
+        elif place == 'titled':
             blk, first, prob = ['See %s there.' % link], 0, 0
         elif place == 'para2':
             blk, first, prob = ['This paragraph starts here', 'and links %s there.' % link], 0, 1
@@ -158,7 +171,9 @@ def blocks_for(fmt: str, problem: str, place: str, variant: int, name: str, raw:
 
 def places_for(fmt: str, problem: str) -> List[str]:
     if problem == 'xref':
-        return ['para', 'para2', 'item', 'fieldbody'] if fmt in ('epytext', 'restructuredtext') else ['para', 'para2', 'item']
+        if fmt == 'restructuredtext':
+            return ['para', 'para2', 'item', 'fieldbody', 'titled']
+        return ['para', 'para2', 'item', 'fieldbody'] if fmt == 'epytext' else ['para', 'para2', 'item']
     if problem == 'markup':
         return ['para', 'para2', 'fieldbody', 'atline2'] if fmt == 'epytext' else ['para', 'para2']
     if problem == 'param' and fmt == 'restructuredtext':
@@ -277,12 +292,19 @@ def make_case(fmt: str, kind: str, problem: str, place: str, variant: int, layou
     layout = dict(layout)
     layout['code_indent'] = code_indent
     layout['ci'] = max(0, code_indent + layout.get('ci_delta', 0))
-    flat = place in ('para', 'para2', 'atline2') or (problem in ('field', 'param', 'consolidated') and fmt in ('epytext', 'restructuredtext') and not place.startswith('consol_')) or problem == 'none'
+    flat = place in ('para', 'para2', 'atline2', 'titled') or (problem in ('field', 'param', 'consolidated') and fmt in ('epytext', 'restructuredtext') and not place.startswith('consol_')) or problem == 'none'
     force_before = bool(layout.get('opening_text')) and not flat
     if fmt == 'epytext' and place == 'item' and layout.get('opening_text'):
         # epytext cannot tell the indentation of text on the opening line ("Lists must be indented")
         layout.update(opening_text=False, first_ws='', leading=[])
     before, blk, first_rel, prob_rel, after, msg = blocks_for(fmt, problem, place, variant, name, bool(layout.get('raw')), has_param)
+    if place == 'titled':
+        before = [['Title', '=====']]                   # the docstring opens with a section title
+    if layout.get('inject'):
+        # a character that str.splitlines() treats as a line boundary, inside the text BEFORE the problem
+        before = [['Some plain%stext.' % layout['inject']]] + [b for b in before]
+        if place == 'titled':
+            before = [['Title', '====='], ['Some plain%stext.' % layout['inject']]]
     if force_before and not before:
         # a block with indented continuation lines must not sit on the opening line: cleandoc would take the
         # continuation's indentation for the margin and change the structure of the docstring
@@ -348,7 +370,9 @@ def random_layout(rng: random.Random, code_indent: int, want_excess: Optional[bo
 
 EPY_VOCAB = ['', '  ', 'text', '  text', '    text', 'text::', '  more::', '- item', '  - item', '  1. num', '@param a: b', '@return:',
              '@note', '  @bad field', '>>> code', '  >>> x', '====', '----', '~~~~', '=======', 'Title', 'Head', '- ::', '@a::', '- it::',
-             '    lit', '::', '      deep', ' x']
+             '    lit', '::', '      deep', ' x',
+             # characters str.splitlines() breaks on but that are not line breaks of the source
+             'pa\x0cge', '\x0c', 'a\u2028b', 'x\x0by', '  t\x1cu', 'n\x85m', '- it\u2029em']
 
 
 def oracle_epytok(c: Dict[str, Any], r: Any) -> Optional[Dict[str, Any]]:
@@ -1010,6 +1034,20 @@ class Check(PropertyCheck):
         cases: List[Dict[str, Any]] = []
         if grid:
             v = 0
+            # corpus: characters splitlines() breaks on, before the problem (epytext must not be moved by them)
+            for ch in ('\x0c', '\x0b', '\u2028', '\x85', '\x1c'):
+                for problem, place in (('xref', 'para'), ('field', '-'), ('markup', 'para')):
+                    v += 1
+                    cases.append(make_case('epytext', ['function', 'class', 'module'][v % 3], problem, place, 5 * v + 1,
+                                           dict(LAYOUT_BELOW, inject=ch), k=v % 3))
+            # the same for reST: docutils itself splits on the Unicode/FS-GS-RS separators (known finding), not on \f \v
+            for ch in ('\x0c', '\u2028'):
+                cases.append(make_case('restructuredtext', 'function', 'xref', 'para', 6, dict(LAYOUT_BELOW, inject=ch), k=1))
+            # corpus: a reST docstring that opens with a section title; the reference sits in the summary paragraph
+            for kind in ('function', 'class', 'method'):
+                for lay in (LAYOUT_BELOW, LAYOUT_OPEN):
+                    v += 1
+                    cases.append(make_case('restructuredtext', kind, 'xref', 'titled', v, lay, k=v % 2))
             for fmt in FMTS:
                 for kind in KINDS:
                     for problem in problems_for(kind, fmt):
@@ -1259,8 +1297,9 @@ class Check(PropertyCheck):
             # subtract what the two known defects add; what remains must satisfy the property
             ws = ws_excess(c['value'])
             rst = 1 if (c['problem'] == 'consolidated' and not c.get('also')) else 0
-            if ws + rst > 0 and isinstance(v.observed, int) and isinstance(c.get('first'), int):
-                adj = v.observed - ws - rst
+            sep = separators_before(c) if c['fmt'] != 'epytext' else 0
+            if ws + rst + sep > 0 and isinstance(v.observed, int) and isinstance(c.get('first'), int):
+                adj = v.observed - ws - rst - sep
                 if c['fmt'] == 'epytext':
                     ok = adj == c['first'] or (c['place'] == 'atline2' and c['first'] <= adj <= c['prob'])
                 elif c['fmt'] == 'restructuredtext':
@@ -1268,7 +1307,8 @@ class Check(PropertyCheck):
                 else:
                     ok = c['n0'] <= adj <= c['end']
                 if ok:
-                    want = 'rst_consolidated_field_line_is_one_based' if rst else 'leading_ws_line_longer_than_margin'
+                    want = ('rst_consolidated_field_line_is_one_based' if rst else
+                            'rst_unicode_line_separators' if sep else 'leading_ws_line_longer_than_margin')
                     for k in known:
                         if k.get('match', {}).get('condition') == want:
                             return k
